@@ -27,9 +27,11 @@ def chain_matrix(weights=(5.0, 6.0, 7.0)):
 
 
 def local_drives(steps=STEPS, n=4):
-    om = torch.tensor([[1.0 + k for k in range(n)]] * steps, dtype=torch.complex128)
-    de = torch.tensor([[0.1 * (k + 1) for k in range(n)]] * steps, dtype=torch.complex128)
-    ph = torch.tensor([[0.01 * (k + 1) for k in range(n)]] * steps, dtype=torch.complex128)
+    # different on every atom AND at every step (STEPS == 4 == number of atoms of the chain scenario, so a
+    # helper that treats the (steps, atoms) table as a square matrix would also shuffle the time axis)
+    om = torch.tensor([[(1.0 + k) * (1 + 0.25 * t) for k in range(n)] for t in range(steps)], dtype=torch.complex128)
+    de = torch.tensor([[0.1 * (k + 1) * (1 + 0.5 * t) for k in range(n)] for t in range(steps)], dtype=torch.complex128)
+    ph = torch.tensor([[0.01 * (k + 1) * (1 + t) for k in range(n)] for t in range(steps)], dtype=torch.complex128)
     return om, de, ph
 
 
